@@ -2006,7 +2006,7 @@ func (r Stack) Traverse(indices ...int) (slice any, ok bool) {
 traverse is a private method called by [Stack.Traverse].
 */
 func (r stack) traverse(indices ...int) (slice any, ok, done bool) {
-	if r.valid() {
+	if r.isInit() {
 		if len(indices) == 0 {
 			return
 		}
